@@ -72,6 +72,10 @@ def is_fresh_expr(e, fresh_calls):
             if f.attr in ('copy', 'lower', 'upper', 'strip', 'split', 'join', 'replace', 'format', 'strftime',
                           'startswith', 'endswith', 'title', 'isoformat', 'groups', 'group', 'search', 'match',
                           'findall', 'sub', 'count', 'read', 'read_text', 'deepcopy', 'lstrip', 'rstrip'):
+                # .match / .search of a regular expression build a new Match object; MerchantEngine.match (receiver `self` or `..engine..`) returns a
+                # result that may hold values taken from its arguments (a field: evaluating to a supplemental row): not fresh
+                if f.attr in ('match', 'search') and (ast.unparse(f.value) == 'self' or 'engine' in ast.unparse(f.value).lower()):
+                    return False
                 return True
             if ast.unparse(f) in fresh_calls or f.attr in fresh_calls:
                 return True
@@ -372,3 +376,151 @@ def check_calls(fi, allowed_names, allowed_attrs, cid=None, forbidden=()):
     # open (auxiliary: UNDECIDED unless the bounded stand-in shows an escape) - a new harmless library call is not reported as a violation
     return [Clause(cid, not bad, '; '.join(bad[:6]) if bad else 'no reflective / escaping construct is called'),
             Clause(cid + '.closed_table', not unknown, '; '.join(unknown[:6]) if unknown else 'all calls resolve inside the audited table', kind='auxiliary')]
+
+
+# ---------------------------------------------------------------------------------------------------------------------------------------
+# Frames across calls: what a callee writes through its parameters is written, at the call site, through the caller's arguments.
+
+def _params(fn):
+    ps = [a.arg for a in fn.args.posonlyargs + fn.args.args + fn.args.kwonlyargs]
+    if fn.args.vararg:
+        ps.append(fn.args.vararg.arg)
+    if fn.args.kwarg:
+        ps.append(fn.args.kwarg.arg)
+    return ps
+
+
+def direct_param_writes(fn, fresh_calls):
+    """paths rooted at a parameter of fn that fn itself may write in place"""
+    cls, aliases_of_expr = classify(fn, set(fresh_calls))
+    params = set(_params(fn))
+    out = set()
+    for kind, recv, node in writes(fn):
+        if kind.startswith('global:'):
+            continue
+        al = aliases_of_expr(recv)
+        if kind.startswith('attr:'):
+            al = {p + '.' + kind[5:] for p in al} if al else set()
+        out |= {p for p in al if root_of(p) in params}
+    return out
+
+
+class PackageIndex:
+    """functions and methods of the given modules, for resolving the callee of a Call node the way Python would in the simple cases:
+    f(...) -> function f of the caller's module (or imported by name from another listed module); self.m(...) -> method m of the caller's class;
+    alias.f(...) -> function f of the listed module imported under that alias; x.m(...) on any other receiver -> every method called m (union)."""
+
+    def __init__(self, modules):
+        self.mods = modules                     # modname -> extract.Module
+        self.fn = {}                            # (modname, None, name) / (modname, cls, name) -> FunctionDef
+        for mname, m in modules.items():
+            for name, node in m.functions.items():
+                self.fn[(mname, None, name)] = node
+            for cname, cnode in m.classes.items():
+                for n in cnode.body:
+                    if isinstance(n, ast.FunctionDef):
+                        self.fn[(mname, cname, n.name)] = n
+
+    def resolve(self, call, mname, cname):
+        """list of (key, binds_receiver_to_self) candidates"""
+        f = call.func
+        if isinstance(f, ast.Name):
+            if (mname, None, f.id) in self.fn:
+                return [((mname, None, f.id), False)]
+            tgt = self.mods[mname].imports.get(f.id, '')
+            for m2 in self.mods:
+                if tgt == m2 + '.' + f.id and (m2, None, f.id) in self.fn:
+                    return [((m2, None, f.id), False)]
+            return []
+        if isinstance(f, ast.Attribute):
+            if isinstance(f.value, ast.Name) and f.value.id == 'self' and cname and (mname, cname, f.attr) in self.fn:
+                return [((mname, cname, f.attr), True)]
+            if isinstance(f.value, ast.Name) and f.value.id in self.mods[mname].imports:
+                tgt = self.mods[mname].imports.get(f.value.id)       # the receiver is an imported module (or name): ast.parse, re.sub, expr_parser.evaluate
+                if tgt in self.mods and (tgt, None, f.attr) in self.fn:
+                    return [((tgt, None, f.attr), False)]
+                return []
+            if f.attr in MUTATORS:
+                return []
+            return [(k, True) for k in self.fn if k[1] is not None and k[2] == f.attr]
+        return []
+
+
+def _actuals(call, callee, binds_self):
+    """formal parameter name -> list of actual argument expressions of this call (conservative for * and **)"""
+    ps = [a.arg for a in callee.args.posonlyargs + callee.args.args]
+    out = {}
+    if binds_self and ps:
+        out.setdefault(ps[0], []).append(call.func.value)
+        ps = ps[1:]
+    star = [a for a in call.args if isinstance(a, ast.Starred)] + [k.value for k in call.keywords if k.arg is None]
+    pos = [a for a in call.args if not isinstance(a, ast.Starred)]
+    for i, a in enumerate(pos):
+        if i < len(ps):
+            out.setdefault(ps[i], []).append(a)
+        elif callee.args.vararg:
+            out.setdefault(callee.args.vararg.arg, []).append(a)
+    names = set(_params(callee))
+    for k in call.keywords:
+        if k.arg is not None:
+            out.setdefault(k.arg if k.arg in names else (callee.args.kwarg.arg if callee.args.kwarg else k.arg), []).append(k.value)
+    for s in star:
+        for p in _params(callee):
+            out.setdefault(p, []).append(s)
+    return out
+
+
+def callee_writes(index, fresh_calls):
+    """key -> paths rooted at the function's own parameters that it may write, directly or through the functions it calls (least fixpoint)"""
+    W = {k: direct_param_writes(n, fresh_calls) for k, n in index.fn.items()}
+    info = {}
+    for k, n in index.fn.items():
+        cls, aliases_of_expr = classify(n, set(fresh_calls))
+        calls = [c for c in ast.walk(n) if isinstance(c, ast.Call)]
+        info[k] = (aliases_of_expr, calls, set(_params(n)))
+    for _ in range(10):
+        changed = False
+        for k, n in index.fn.items():
+            aliases_of_expr, calls, params = info[k]
+            for c in calls:
+                for k2, binds in index.resolve(c, k[0], k[1]):
+                    if not W[k2]:
+                        continue
+                    act = _actuals(c, index.fn[k2], binds)
+                    for path in list(W[k2]):
+                        r = root_of(path)
+                        for a in act.get(r, []):
+                            for al in aliases_of_expr(a):
+                                p = al + path[len(r):]
+                                if root_of(p) in params and p not in W[k]:
+                                    W[k].add(p)
+                                    changed = True
+        if not changed:
+            break
+    return W
+
+
+def check_call_frames(fi, key, index, W, allowed, fresh_calls=(), cid=None, proof_state=()):
+    """Clause: every call made by fi hands the callee only state the caller may itself write (or fresh state) in the positions the callee writes through."""
+    cid = cid or ('%s#assigns_through_callees' % fi.qualname)
+    cls, aliases_of_expr = classify(fi.node, set(fresh_calls))
+    bad = []
+    n_calls = 0
+    for c in ast.walk(fi.node):
+        if not isinstance(c, ast.Call):
+            continue
+        for k2, binds in index.resolve(c, key[0], key[1]):
+            if not W.get(k2):
+                continue
+            n_calls += 1
+            act = _actuals(c, index.fn[k2], binds)
+            for path in sorted(W[k2]):
+                r = root_of(path)
+                for a in act.get(r, []):
+                    for al in aliases_of_expr(a):
+                        p = al + path[len(r):]
+                        if any(p == x or p.startswith(x + '.') or p.startswith(x + '[') for x in list(allowed) + list(proof_state)):
+                            continue
+                        bad.append('line %d: %s(...) writes its parameter %s in place, and is handed `%s` (%s)' % (c.lineno, k2[2], path, ast.unparse(a)[:50], p))
+    return [Clause(cid, not bad, '; '.join(bad[:6]) if bad else '%d calls of functions that write through a parameter: each is handed fresh state or state within {%s}'
+                   % (n_calls, ', '.join(sorted(allowed))), where='%s:%d' % (fi.file, fi.lines[0]))]
